@@ -234,7 +234,9 @@ def judge_c18(s, r):
         posix = bool(o.get("posix"))
         bim = o["bim"] if "bim" in o else (0 if posix else 1)
         # a patch skipped as already applied writes nothing back: there is nothing to back up
-        due = (bool(o.get("b")) or (bool(bim) and mismatch)) and not skipped
+        # (a skipped patch is written out only under -o; then -b still asks for a backup of what is overwritten, the
+        # mismatch rule does not: the patch has not been applied)
+        due = (bool(o.get("b")) and (not skipped or bool(o.get("o")))) or (bool(bim) and mismatch and not skipped)
         if "refusing to patch" in blk:
             due = False
         had_before = bn in s["tree"]
@@ -708,6 +710,35 @@ def run(prop, tier, seed):
                 return None
             _, b4, m4 = l2_family(run_, exe, ser, judge_series, cls=lambda s, r: "series exit %d" % r["exit"])
             bad += b4; mism += m4
+            # the file to patch is reached through a symbolic link: the mode that counts (kept, or refused when read-only)
+            # is the mode of the file behind the link
+            lk = []
+            for _ in range(n // 5):
+                sec = scen.section(rng, rng.choice(["lf", "ld/lf"]), kind="change", fmt=rng.choice(["unified", "context", "git"]), nonl=False)
+                o = dict(rng.choice([{}, {}, {"ro": "fail"}, {"ro": "warn"}, {"ro": "ignore"}]))
+                s0 = scen.base_scenario(rng, [sec], opts=o)
+                k_, m_, d_ = s0["tree"][sec["path"]]
+                real = sec["path"] + ".real"
+                mode = rng.choice([0o644, 0o640, 0o600, 0o444, 0o400, 0o755, 0o664])
+                s0["tree"][real] = ("R", mode, d_)
+                s0["tree"][sec["path"]] = ("S", 0, real.rsplit("/", 1)[-1].encode())
+                s0["real"] = real; s0["mode"] = mode; s0["A"] = d_; s0["B"] = emit.file_bytes(sec["b"])
+                lk.append(s0)
+
+            def judge_link(s, r):
+                a = tree_no_meta(r["tree"]).get(s["real"])
+                if a is None:
+                    return "the file behind the link is gone"
+                ro = (s["mode"] & 0o222) == 0
+                if ro and s["opts"].get("ro") == "fail":
+                    if (a[1], a[2]) != (s["mode"], s["A"]) or r["exit"] == 0:
+                        return "a read-only file behind a link had to be refused under --read-only=fail: mode %o -> %o, exit %d" % (s["mode"], a[1], r["exit"])
+                    return None
+                if a[1] != s["mode"]:
+                    return "the mode of the file behind the link is %o after the run, it was %o" % (a[1], s["mode"])
+                return None
+            _, b5, m5 = l2_family(run_, exe, lk, judge_link, cls=lambda s, r: "through a link exit %d" % r["exit"])
+            bad += b5; mism += m5
         elif prop == "C18":
             scns = scenarios_for(prop, rng, n)
             for _ in range(n // 4):
@@ -733,6 +764,14 @@ def run(prop, tier, seed):
                         ls_[j] = b"broken " + ls_[j]
                     d_ = b"\n".join(ls_)
                 s0["tree"][sec["path"]] = (k_, m_, d_)
+                scns.append(add_bystanders(rng, s0))
+            for _ in range(n // 5):
+                # an already applied patch (skipped under -N, reversed under -t), with and without -o: no backup is due when it is skipped
+                sec = scen.section(rng, rng.choice(["ap", "apd/ap"]), kind="change", fmt=rng.choice(["unified", "context", "git"]), nonl=False)
+                o = dict(rng.choice([{"N": 1}, {"N": 1, "o": "outfile"}, {"N": 1, "o": "outfile"}, {"t": 1, "o": "outfile"}, {"N": 1, "bim": 1, "o": "outfile"}, {"N": 1, "b": 1, "o": "outfile"}]))
+                s0 = scen.base_scenario(rng, [sec], opts=o)
+                k_, m_, d_ = s0["tree"][sec["path"]]
+                s0["tree"][sec["path"]] = (k_, m_, emit.file_bytes(sec["b"]))
                 scns.append(add_bystanders(rng, s0))
             _, b2, m2 = l2_family(run_, exe, scns, judge_c18, cls=lambda s, r: "backup opts " + ",".join(sorted(k for k in s["opts"] if k in ("b", "B", "z", "posix", "bim", "N"))))
             bad += b2; mism += m2
